@@ -540,6 +540,15 @@ def _hwm_source(ctx, f, off, data, depth=0):
     return False, "max idiom, but %s/%s are not the seek position / bytes read (read_into=%s seek_at=%s)" % (off, data, read_into, seek_at)
 
 
+def _rv_text(eb, rv):
+    e = eb.rvalue(rv)
+    if e[0] == "place" and re.match(r"^\w+$", e[1]):
+        ds = eb.var_defs(e[1])
+        if len(ds) == 1:
+            return expr_str(ds[0])
+    return expr_str(e)
+
+
 @rule("C20", "C20-P3", 1, "the sender's counter is written only by an accepted high-water-mark idiom fed by the bytes actually read")
 def c20_p3(ctx):
     fns = impl_and_closures(ctx, SEND)
@@ -556,6 +565,30 @@ def c20_p3(ctx):
         m = re.match(r"^Ord(?:>)?::max\(self\.sent_file_size, (?:\(AddWithOverflow\((.+), \(Vec::len\(&(\w+)\) as u64\)\)\)\.0|Add\((.+), \(Vec::len\(&(\w+)\) as u64\)\))\)$", txt)
         good = False
         why = ""
+        if not m and j >= 0:
+            # idiom 2: `let reached = offset + len(data); if reached > old { old = reached }`
+            m2 = re.match(r"^(?:\(AddWithOverflow\((.+), \(Vec::len\(&(\w+)\) as u64\)\)\)\.0|Add\((.+), \(Vec::len\(&(\w+)\) as u64\)\))$", _rv_text(eb, s["rv"]))
+            if m2:
+                flg = Flow(ctx.prog, ctx.mods, f, lambda k: k[0] == "expr" and "self.sent_file_size" in k[1] and k[1].startswith(("Gt(", "Lt(", "Ge(", "Le(")))
+                ws = [dict(w) for w in flg.at_stmt(b, j)]
+
+                def above(w):
+                    for k, (pos, vs) in w.items():
+                        mm = re.match(r"^(Gt|Lt|Ge|Le)\((.+), (.+)\)$", k[1])
+                        if not mm or not pos or len(vs) != 1:
+                            continue
+                        op, l_, r_ = mm.groups()
+                        v = list(vs)[0]
+                        old_left = l_ == "self.sent_file_size"
+                        old_right = r_ == "self.sent_file_size"
+                        # new > old  (or old < new), possibly as the false edge of the complement
+                        if (op == "Gt" and old_right and v == 1) or (op == "Lt" and old_left and v == 1) or (op == "Le" and old_right and v == 0) or (op == "Ge" and old_left and v == 0):
+                            return True
+                    return False
+
+                if ws and all(above(w) for w in ws):
+                    m = m2
+                    txt = "Ord::max(self.sent_file_size, %s)" % txt
         if m:
             off = m.group(1) or m.group(3)
             data = m.group(2) or m.group(4)
